@@ -490,6 +490,8 @@ def m_opt_is(I, a, e, ci):
 @model("std::option::Option::<T>::unwrap_or", "std::result::Result::<T, E>::unwrap_or")
 def m_unwrap_or(I, a, e, ci):
     v, d = a
+    if isinstance(v, Opaque) and v.what == "max-option" and isinstance(d, IntV) and eq(d.e, 0):
+        return IntV(v.info["mx"])  # MAX over the empty sequence is 0 by the same convention as the running-maximum loop
     if isinstance(v, Enum):
         return v.payload[0] if v.variant in ("Some", "Ok") else d
     if isinstance(v, Ite) and isinstance(v.a, Enum) and isinstance(v.b, Enum):
@@ -1660,3 +1662,50 @@ def m_checked_sub(I, a, e, ci):
     if isinstance(c, bool):
         return none if c else some
     return Ite(c, none, some)
+
+
+@model("std::iter::Iterator::try_for_each")
+def m_try_for_each(I, a, e, ci):
+    """`iter.try_for_each(|x| fallible(x))?`: a for loop whose body ends in `?` (first error aborts)"""
+    it, f = I.deref(a[0]), I.deref(a[1])
+    itv = I.to_iter(it, e)
+    if not (isinstance(f, Closure) and len(f.node["params"]) == 1):
+        raise Unanalysable("try_for_each with a non-closure callee", FX.short(e.get("sp")))
+
+    def body(env_):
+        r = I.deref(I.ev_raw(f.node["body"], env_))
+        I.try_val(r, e)
+        return UNIT
+
+    I.run_loop(f.node["params"][0], itv, {"k": "_Py", "f": body, "sp": e.get("sp")}, f.env, e)
+    return Enum("Result", "Ok", [UNIT])
+
+
+@model("std::iter::Iterator::max")
+def m_iter_max(I, a, e, ci):
+    """maximum of a symbolic sequence of integers: MAX(n, template); None only for the empty sequence"""
+    it = I.to_iter(a[0], e)
+    if it.vec is None:
+        raise Unanalysable("max of an unbounded iterator")
+    segs = it.vec.nonempty_segs()
+    if not segs:
+        return Enum("Option", "None", [])
+    if len(segs) != 1:
+        raise Unanalysable("Iterator::max over a segmented sequence", FX.short(e.get("sp")))
+    s_ = segs[0]
+    j = fresh("j", integer=True, nonnegative=True)
+    el = s_.f(j)
+    if not isinstance(el, IntV):
+        raise Unanalysable(f"Iterator::max over {el!r}", FX.short(e.get("sp")))
+    t_ = sp.expand(el.e)
+    mx = sfun("MAX")(s_.n, t_.xreplace({j: isym("_k")}))
+    I.max_facts.append({"template": t_, "isym": j, "n": s_.n, "max": mx, "init": sp.Integer(0), "where": FX.short(e.get("sp"))})
+    for fa, fb in list(I.bounds.facts):
+        fa_, fb_ = sp.sympify(fa), sp.sympify(fb)
+        if fb_.has(j):
+            continue
+        # an upper bound established for the generic element (under whatever index symbol the earlier loop used)
+        # holds for the maximum
+        if eq(fa_, t_) or any(not fb_.has(x_) and eq(fa_.xreplace({x_: j}), t_) for x_ in fa_.free_symbols if x_.is_integer):
+            I.bounds.add_le(mx, fb_)
+    return Opaque("max-option", mx=mx, n=s_.n)
